@@ -161,7 +161,7 @@ def showEff : Eff → String
 
 def showMergeErr : MergeErr → String
   | .badBool => "badBool" | .listToStore => "listToStore" | .assertion => "assertion"
-  | .intValueError => "intValueError" | .noFlags => "noFlags"
+  | .intValueError => "intValueError" | .noFlags => "noFlags" | .badValue => "badValue"
 
 /-- warnings in the order the files are processed (last file first) -/
 def allWarnings (table : List Opt) (files : List (List (Str × FileVal))) : List Str :=
@@ -171,7 +171,8 @@ def allWarnings (table : List Opt) (files : List (List (Str × FileVal))) : List
 def warningsUntilError (table : List Opt) (cli : List Arg) : List (List (Str × FileVal)) → List Str
   | [] => []
   | f :: more =>
-    (validate table f).2 ++
+    -- the validator walks the items in order and stops at the first value it refuses
+    (validate table (f.takeWhile fun kv => !itemBad table kv)).2 ++
       (match mergeFile table cli f with
        | .ok args => warningsUntilError table args more
        | .error _ => [])
